@@ -33,7 +33,7 @@ RULE = ('history = 5-40 operations from {LOAD(path, mode) of .rules/.csv/None, E
 
 
 def runs(tier):
-    return 200 if tier == 'quick' else 40000
+    return 200 if tier == 'quick' else 12000
 
 
 # ----------------------------------------------------------------------------- pools
